@@ -126,6 +126,13 @@ def expectedRecovery : List (String × String) := [
 theorem gen_recovery_eq : Gen.StateWrites.recovery = expectedRecovery := by
   unfold Gen.StateWrites.recovery expectedRecovery; rfl
 
+/-- (T) `newSyncExecutor` builds the executor from `db.syncState` only after the pending-baseline block
+    has re-established the baseline and reset that state; an executor built earlier would carry the
+    pre-reset state (not `fresh`) into verify and write it back. -/
+theorem gen_executor_built_after_reset :
+    Gen.StateWrites.executorOrder = ["init", "baseline", "reset-state", "pos", "build-executor(state: db.syncState)"] := by
+  unfold Gen.StateWrites.executorOrder; rfl
+
 /-- Position after `checkDatabaseBehindReplica` (the same function as `C04.initPos`, restated here
     so this module stays independent of the decision model). -/
 def basePos (localMax replicaMax : Nat) : Nat := if localMax ≥ replicaMax then localMax else replicaMax
